@@ -139,17 +139,33 @@ func genBasePlaceholderNameFromExpr(expr ast.Node, defaultName string) string {
 	case *ast.GlobalNode:
 		// the part after the last dot, as for a data reference (official Soy's
 		// extractPartAfterLastDot): {app.MAX_ITEMS} is the placeholder MAX_ITEMS
-		return toUpperUnderscore(expr.Name[strings.LastIndex(expr.Name, ".")+1:])
+		return usable(toUpperUnderscore(expr.Name[strings.LastIndex(expr.Name, ".")+1:]), defaultName)
 	case *ast.DataRefNode:
 		if len(expr.Access) == 0 {
-			return toUpperUnderscore(expr.Key)
+			return usable(toUpperUnderscore(expr.Key), defaultName)
 		}
 		var lastChild = expr.Access[len(expr.Access)-1]
 		if lastChild, ok := lastChild.(*ast.DataRefKeyNode); ok {
-			return toUpperUnderscore(lastChild.Key)
+			return usable(toUpperUnderscore(lastChild.Key), defaultName)
 		}
 	}
 	return defaultName
+}
+
+// usable returns the name if a translation can refer to it - {NAME} as Parts
+// reads it: capital letters, digits and underscores, at least one - and the
+// default name otherwise ($_ has no letters left, $naïve is not ASCII).
+func usable(name, defaultName string) string {
+	if name == "" {
+		return defaultName
+	}
+	for i := 0; i < len(name); i++ {
+		var c = name[i]
+		if !('A' <= c && c <= 'Z' || '0' <= c && c <= '9' || c == '_') {
+			return defaultName
+		}
+	}
+	return name
 }
 
 var htmlTagNames = map[string]string{
